@@ -1111,7 +1111,13 @@ func scenDamping(e *Env, args []string, r *rand.Rand) {
 		c.send(stimulus(how[5:], r))
 		c.waitEnd(stepWait)
 	case strings.HasPrefix(how, "rcvd."):
-		c.send(wire.Notification(uint8(atoi(how[5:], 3)), 1, nil))
+		// rcvd.<code>[.<subcode>]
+		cs := strings.Split(how[5:], ".")
+		sub := 1
+		if len(cs) > 1 {
+			sub = atoi(cs[1], 1)
+		}
+		c.send(wire.Notification(uint8(atoi(cs[0], 3)), uint8(sub), nil))
 		c.waitEnd(stepWait)
 	case how == "cease":
 		c.send(wire.Notification(6, 2, nil))
@@ -1168,7 +1174,7 @@ func scenDamping(e *Env, args []string, r *rand.Rand) {
 			case strings.HasPrefix(how, "sent."):
 				c2.send(stimulus(how[5:], r))
 			default:
-				c2.send(wire.Notification(uint8(atoi(strings.TrimPrefix(how, "rcvd."), 3)), 1, nil))
+				c2.send(wire.Notification(uint8(atoi(strings.Split(strings.TrimPrefix(how, "rcvd."), ".")[0], 3)), 1, nil))
 			}
 			c2.waitEnd(stepWait)
 			p.waitEv(p.mark, stepWait, "log.damp")
@@ -1737,7 +1743,8 @@ func init() {
 			for _, lid := range []string{"10.0.0.100", "10.0.1.44", "10.0.0.200"} {
 				for _, first := range []string{"out", "in"} {
 					if lid == "10.0.0.200" {
-						for _, ras := range []int{65000, 65002} {
+						// (local AS 65001; four-octet remote AS numbers travel as AS_TRANS in the My-AS field)
+						for _, ras := range []int{65000, 65002, 70000, 4200000000, 23457} {
 							out = append(out, fmt.Sprintf("collision:lid=%s:ras=%d:first=%s:i=%d", lid, ras, first, rep))
 						}
 						continue
@@ -1848,6 +1855,12 @@ func init() {
 			// negotiated hold time 0, a few writes, the connection dropped by the remote, the same FSM dials again
 			"writers:out:k=1:n=5:end=fin:inside=0:rhold=0:re=1:ms=100:i=0", "writers:out:k=2:n=8:end=cease:inside=1:rhold=0:re=1:ms=100:i=1",
 		}
+	}
+	// what the FSM goroutine and the application write concurrently (NOTIFICATION / KEEPALIVE against WriteUpdate), under
+	// the race detector: the cross-section of C04 / C08
+	scenarioLists["C04R"] = func(tier string, r *rand.Rand) []string {
+		return []string{"writers:in:k=3:n=300:end=fsmerr:inside=0:pause=1:adv=1:ms=120:i=0", "writers:out:k=3:n=200:end=veto:inside=1:pause=1:ms=120:i=0",
+			"writers:in:k=4:n=200:end=cease:inside=1:ms=100:i=0", "hold:out:l=3:r=3:pat=writes:ms=1500", "updates:in:n=14:slow=3000:echo=2:k=c8d"}
 	}
 	scenarioLists["C11"] = func(tier string, r *rand.Rand) []string {
 		out := []string{"reconnect:refuse:ih=200:cr=500", "reconnect:refuse:ih=50:cr=500", "reconnect:x:passive", "inbound-resume",
@@ -1984,7 +1997,10 @@ func init() {
 	}
 	scenarioLists["C14"] = func(tier string, r *rand.Rand) []string {
 		// + an OPEN sent after an earlier session negotiated a lower hold time (it must carry the configured one)
-		return []string{"open-caps:fresh", "open-caps:mutate", "open-caps:mutate:i=1", "open-caps:concurrent", "open-caps:concurrent:i=1", "open-caps:concurrent:i=2", "hold:out:l=0:r=3:pat=ka:ms=600", "hold:in:l=0:r=0:pat=ka:ms=600", "hold:out:l=65535:r=3:pat=ka:ms=600", "hold:out:l=30:r=3:r1=9:pat=ka:ms=1200", "hold:in:l=30:r=3:r1=9:pat=ka:ms=1200"}
+		return []string{"open-caps:fresh", "open-caps:mutate", "open-caps:mutate:i=1", "open-caps:concurrent", "open-caps:concurrent:i=1", "open-caps:concurrent:i=2", "hold:out:l=0:r=3:pat=ka:ms=600", "hold:in:l=0:r=0:pat=ka:ms=600", "hold:out:l=65535:r=3:pat=ka:ms=600", "hold:out:l=30:r=3:r1=9:pat=ka:ms=1200", "hold:in:l=30:r=3:r1=9:pat=ka:ms=1200",
+			// the OPEN of the attempt that follows a hold-down started by a received NOTIFICATION (Unsupported Optional Parameter,
+			// Unsupported Capability): the same OPEN as before
+			"damping:out:openSent:rcvd.2.4:expire=1:ms=600", "damping:in:openSent:rcvd.2.4:expire=1:ms=600", "damping:out:openConfirm:rcvd.2.7:expire=1:ms=600"}
 	}
 	scenarioLists["C05"] = func(tier string, r *rand.Rand) []string {
 		var out []string
